@@ -147,7 +147,7 @@ def random_params(rnd, cls, shorts=0.0):
     return ps
 
 
-def random_leaf(rnd, symbols, p_open=0.0, p_short=0.0, labels=None, containers=True, depth=0):
+def random_leaf(rnd, symbols, p_open=0.0, p_short=0.0, labels=None, containers=True, depth=0, nest=False):
     from pyimpspec import get_elements
     els = get_elements(private=True)
     if p_open and rnd.random() < p_open and "Xo" in els:
@@ -174,7 +174,9 @@ def random_leaf(rnd, symbols, p_open=0.0, p_short=0.0, labels=None, containers=T
                 if kind == "short":
                     return "short"
                 n = rnd.choice([1, 1, 2])
-                ch = [random_leaf(rnd, ["R", "C", "Q", "W"], labels=labels, containers=False, depth=depth + 1) for _ in range(n)]
+                # nest=True: a container may sit inside a sub-circuit of another container (one level)
+                inner = nest and depth == 0
+                ch = [random_leaf(rnd, ["R", "C", "Q", "W"] + (["Tlm"] if inner else []), labels=labels, containers=inner, depth=depth + 1) for _ in range(n)]
                 if n == 1 or rnd.random() < 0.5:
                     return ("S", ch)
                 return ("S", [("P", ch)])
